@@ -72,9 +72,13 @@ def fault_groups(tier, salt, n_mut_quick=6, n_mut_thorough=12):
         vecs = []
         for v in g["vectors"]:
             for o, img in (("L", v["outL"]), ("B", v["outB"])):
-                for kind, data in pytrace.mutations(rnd, bytes(img), n_mut):
-                    if kind == "canon":
-                        continue
+                muts = [m for m in pytrace.mutations(rnd, bytes(img), n_mut) if m[0] != "canon"]
+                # systematic: every 8-aligned word replaced by all ones / a huge count (64-bit counters and sizers)
+                img_b = bytes(img)
+                for p in range(0, len(img_b) - 7, 8):
+                    for val in (2 ** 64 - 1, 0xFFFFFFFF00000002):
+                        muts.append(("q64", img_b[:p] + val.to_bytes(8, "little" if o == "L" else "big") + img_b[p + 8:]))
+                for kind, data in muts:
                     vecs.append({"inp": list(data), "ord": o, "fault": [kind, 0, 0], "inner": "given",
                                  "env": g["cons"], "walk": v["walk"], "rkind": v["rkind"]})
         g["vectors"] = vecs
